@@ -5,19 +5,26 @@ from ..rules import ownership
 from ..rules.flow import find_path_avoiding, describe_path
 
 EXPLANATION = (
-    "Static decision of structural clauses of C19 over every function of the library (src/**): "
-    "(R1.alloc) the result of every allocator call (malloc/calloc/realloc/strdup, arena allocators, "
+    "Static decision of structural clauses of C19 over every function of the library (src/**): (R1.alloc) "
+    "the result of every allocator call (malloc/calloc/realloc/strdup, arena allocators, "
     "carquet_buffer_advance) is NULL-tested on every CFG path before it is dereferenced, indexed or "
     "handed to a libc memory routine or to a callee that dereferences that parameter unconditionally "
     "(one-level callee summaries); (R1.status) the status returned by every callee that may allocate "
-    "(transitively reaches an allocator in the call graph) is consumed on every path - returned, "
-    "tested, passed on, stored in a longer-lived object, or stored in a local that is read before it is "
-    "overwritten or the function exits (liveness on clang's CFG); (R1.sticky) a function that "
-    "initialises a Thrift encoder/decoder tests its sticky error state before returning CARQUET_OK; "
-    "(R2) resource pairing on error paths is decided by the ownership engine (see rules/ownership). "
-    "(R1.fail) the branch taken when an allocator returned NULL leaves through an error signal - a failure "
-    "constant, a cleanup jump, a failure stored in the status - and never returns CARQUET_OK/true/non-NULL "
-    "nor the result of further work. Decides these clauses; a NULL result that is tolerated rather than dereferenced is not decided.")
+    "(transitively reaches an allocator in the call graph) is consumed on every path - returned, tested, "
+    "passed on, stored in a longer-lived object, or stored in a local that is read before it is "
+    "overwritten or the function exits (liveness on clang's CFG); (R1.sticky) a function that initialises "
+    "a Thrift encoder/decoder tests its sticky error state before returning CARQUET_OK; (R2) resource "
+    "pairing on error paths is decided by the ownership engine (see rules/ownership). (R1.fail) the "
+    "branch taken when an allocator returned NULL leaves through an error signal - a failure constant, a "
+    "cleanup jump, a failure stored in the status - and never returns CARQUET_OK/true/non-NULL nor the "
+    "result of further work. (R1.atomic) a failed growth leaves the object as it was: before a realloc "
+    "whose NULL branch reports failure, no count/capacity member (one the file uses as a bound in a "
+    "comparison) of the object that owns the reallocated pointer is changed unless the failing branch "
+    "restores it. R1.alloc accepts a NULL test made by a predicate helper the pointer is handed to, reads "
+    "`*slot = malloc(..); if (!*slot)` as tested, and only reports feasible paths (branch outcomes about "
+    "the sign of an unmodified local or the value of an unmodified lvalue must not contradict each "
+    "other); R1.status accepts a status that is lost on a path which itself returns a failure constant. "
+    "Decides these clauses; a NULL result that is tolerated rather than dereferenced is not decided.")
 
 ALLOC_EXT = {"malloc", "calloc", "realloc", "strdup", "strndup", "aligned_alloc", "posix_memalign"}
 
